@@ -175,7 +175,8 @@ def impl_obs(case):
 def _read_csv(path):
     import pandas as pd
 
-    return pd.read_csv(path, index_col=0)
+    # round_trip: the exact float parser (the default fast parser is off by an ulp for long mantissas)
+    return pd.read_csv(path, index_col=0, float_precision="round_trip")
 
 
 def csv_obs(case, obs):
@@ -361,7 +362,7 @@ def judge(case, obs, fail):
                                for p in case["node_props"] + case["edge_props"])
         if obs["exc"] == "TypeError" and has_bool_missing:
             key = "C17:bool-missing-mask"
-        elif obs["exc"] == "ValueError" and (n == 1 or e == 1) and "length" in obs.get("msg", ""):
+        elif obs["exc"] == "ValueError" and (n == 1 or e == 1):
             key = "C17:single-row-squeeze"
         else:
             key = "C17:exception"
@@ -498,7 +499,7 @@ def gen_graph(rng, n=None, e=None):
     return {"node_ids": [str(x) for x in ids], "edges": [[str(a), str(b)] for a, b in edges], "id_dtype": idt}
 
 
-NAMES = ["p", "q", "score", "pos", "a_b", "t", "x", "Ünï", "p_0", "name with space", "col,comma"]
+NAMES = ["p", "q", "score", "pos", "a_b", "t", "x", "Ünï", "p0", "name with space", "col,comma"]
 
 
 def random_case(rng, collide=False):
@@ -515,9 +516,11 @@ def random_case(rng, collide=False):
         how = rng.choice(["id", "sub", "sub"])
         if how == "id":
             nm = "id" if kind == "node" else rng.choice(["source", "target"])
-            c[f"{kind}_props"] = [p for p in c[f"{kind}_props"] if p["name"] != nm] + [gen_prop(rng, nm, cnt, trail=rng.choice([[], [1]]))]
+            c[f"{kind}_props"] = [p for p in c[f"{kind}_props"] if p["name"] != nm] + [
+                gen_prop(rng, nm, cnt, dt=c["id_dtype"], trail=rng.choice([[], [1]]), missing_mode="none")]
         else:
-            c[f"{kind}_props"] = [gen_prop(rng, "w", cnt, trail=[rng.choice([2, 3])]), gen_prop(rng, "w_1", cnt, trail=[])]
+            c[f"{kind}_props"] = [gen_prop(rng, "w", cnt, dt="int32", trail=[rng.choice([2, 3])], missing_mode="none"),
+                                  gen_prop(rng, "w_1", cnt, dt="int32", trail=[], missing_mode="none")]
     return c
 
 
